@@ -16,6 +16,34 @@ def render(op):
 def res_of(line):
     return line.split(" | ")[0]
 
+def events_of(line):
+    """-> list of (inst, kind, payload-token) in arrival order"""
+    parts = line.split(" | ")
+    if len(parts) < 2:
+        return []
+    out = []
+    for tok in parts[1][3:].split(" "):
+        if tok:
+            inst, kind, payload = tok.split(":", 2)
+            out.append((int(inst), kind, payload))
+    return out
+
+def ev_key(e):
+    """the key an event is about ('' for state events and multi-key snapshots)"""
+    if e[1] in ("PV", "PD") and ";" not in e[2] and "=" in e[2]:
+        return e[2][1:-1].split("=")[0]
+    return ""
+
+def canon_line(line):
+    """canonical form for comparing implementation and model: events of one request are ordered by
+    (subscription, key) with the per-key arrival order kept (hash iteration only permutes different keys)"""
+    parts = line.split(" | ")
+    if len(parts) < 2:
+        return line
+    evs = sorted(events_of(line), key=lambda e: (e[0], ev_key(e)))
+    parts[1] = "ev " + " ".join(f"{i}:{k}:{p}" for i, k, p in evs)
+    return " | ".join(parts)
+
 def kvs_of(tok):
     """'[x..=j..;...]' -> {key: canonical json text}"""
     inner = tok.strip()[1:-1]
@@ -34,6 +62,7 @@ def mapspec_oracle(ops, lines, check_acceptance=True):
     """replays the implementation's answers against MapSpec; returns None or (step, message)"""
     sp = MapSpec()
     mem = {}
+    resync = False
     for i, op in enumerate(ops):
         if op[0] == "cgetr":
             r0 = res_of(lines[i]) if i < len(lines) else ""
@@ -48,6 +77,8 @@ def mapspec_oracle(ops, lines, check_acceptance=True):
             return (i, "implementation crashed")
         kind = op[0]
         ok = not r.startswith("err")
+        if resync and kind not in ("dump", "conn", "disc"):
+            continue
         if kind == "set":
             _, c, k, v, *rest = op
             force = rest[0] if rest else False
@@ -118,6 +149,10 @@ def mapspec_oracle(ops, lines, check_acceptance=True):
         elif kind == "len":
             if r != f"len {len(sp.m)}":
                 return (i, f"entry count answered {r}, expected {len(sp.m)}")
+        elif kind in ("conn", "disc"):
+            resync = True      # $SYS bookkeeping / burial: C07's business; the next dump resynchronises
+        elif kind == "dump" and resync:
+            sp.load_dump(r); resync = False
         elif kind == "dump":
             if r != sp.dump_token():
                 return (i, f"stored content differs from the accepted writes: impl {decode_tok(r)} vs spec {decode_tok(sp.dump_token())}")
